@@ -6,7 +6,7 @@
               binds the order of dumps to the order of calls), Close (calls after Close are not dumped)
    A behaviour is printed as [cfg, steps]; a final Close is appended.  Packet ids are made unique per step. *)
 EXTENDS PacketDump, Json
-CONSTANTS DIR, RF, CF, PF, RFMT, CFMT, L, Alpha
+CONSTANTS DIR, RF, CF, PF, RFMT, CFMT, L, Alpha, Sim
 VARIABLES cfg, x, hist
 vars == <<cfg, x, hist>>
 
@@ -27,10 +27,15 @@ Bursts(n)  == IF Alpha = "full" THEN {}
 
 Init == /\ cfg \in [dir : DIR, rf : RF, cf : CF, pf : PF, rfmt : RFMT, cfmt : CFMT]
         /\ x = Open /\ hist = <<>>
+\* Sim (random walks with TLC's simulator): the last step is fixed, because the simulator evaluates the leaf invariant on every
+\* successor of the last-but-one state and would print one behaviour per possible last step
 Next == /\ Len(hist) < L
+        /\ ~(Sim /\ Len(hist) = L - 1)
         /\ LET n == Len(hist) + 1 IN
            \/ \E cs \in Singles(n) \cup Bursts(n) : hist' = Append(hist, Step("calls", cs)) /\ UNCHANGED <<cfg, x>>
            \/ Alpha # "full" /\ ~x.closed /\ x' = CloseStep(x) /\ hist' = Append(hist, Step("close", <<>>)) /\ UNCHANGED cfg
+SimLast == Sim /\ Len(hist) = L - 1 /\ hist' = Append(hist, Step("calls", <<Rtp(96, L), Comp(<<3, 1, 4>>, L)>>)) /\ UNCHANGED <<cfg, x>>
+SimNext == Next \/ SimLast
 Final == [cfg |-> cfg, steps |-> Append(hist, Step("close", <<>>))]
 Leaf == IF Len(hist) = L THEN PrintT(<<"TRACE", ToJson(Final)>>) /\ FALSE ELSE TRUE
 LeafInv == Len(hist) = L => PrintT(<<"TRACE", ToJson(Final)>>)
